@@ -162,7 +162,9 @@ class SocketWrapper:
             except ValueError:
                 # residual bytes at beginning of stream
                 break
-            chunk = instream.read(chunk_length)
+            # a chunk cannot be longer than the segment holding it (and an absurd
+            # size must not overflow the read): anything longer is incomplete
+            chunk = instream.read(min(chunk_length, len(segment)))
             crlf = instream.read(2)  # CRLF terminating this chunk
             if len(chunk) != chunk_length or len(crlf) != 2:
                 # premature end of chunk bytes or of the chunk terminator
